@@ -93,42 +93,62 @@ theorem fmtLoop_two_attempts (text : Bytes) (hn : NulFree text) (tries : Nat) {r
 theorem ofFormat_spec (n0 : Nat) (text : Bytes) (hn : NulFree text) :
     ∃ r, ofFormat n0 text = some r ∧ Models r text := by
   unfold ofFormat
-  have ha := alloc_spec (if n0 = 0 then 100 else n0)
-  exact fmtLoop_total text hn 8 ha.1 (by omega)
+  have ha := alloc_spec (if n0 = 0 then Gen.Str.fmtDefault else n0)
+  have ht : Gen.Str.fmtTries - 1 = (Gen.Str.fmtTries - 2) + 1 := by have := gen_printf.1; omega
+  rw [ht]
+  exact fmtLoop_total text hn _ ha.1 (by omega)
+
+theorem ofFormat_two_attempts (n0 : Nat) (text : Bytes) (hn : NulFree text) :
+    ofFormat n0 text = fmtLoop text 1 (alloc (if n0 = 0 then Gen.Str.fmtDefault else n0)) := by
+  unfold ofFormat
+  have ha := alloc_spec (if n0 = 0 then Gen.Str.fmtDefault else n0)
+  have ht : Gen.Str.fmtTries - 1 = (Gen.Str.fmtTries - 2) + 1 := by have := gen_printf.1; omega
+  rw [ht]
+  exact fmtLoop_two_attempts text hn _ ha.1 (by omega)
 
 theorem ofF_spec (text : Bytes) (hn : NulFree text) : ∃ r, ofF text = some r ∧ Models r text := by
+  obtain ⟨_, _, g3, g4⟩ := gen_printf
+  have hsp0 : Gen.Str.fSpace ≠ 0 := by omega
   unfold ofF
-  by_cases h : text.length ≥ 255
+  by_cases h : text.length ≥ Gen.Str.fSpace
   · -- the stack buffer is too small: truncated write, then the loop in the string's storage
-    have hss : ∃ ss, Rep.vsnprintf (fresh 256) 255 text = some ss := by
+    have hss : ∃ ss, Rep.vsnprintf (fresh Gen.Str.fStack) Gen.Str.fSpace text = some ss := by
       unfold Rep.vsnprintf
-      have hl : (text.take (min text.length (255 - 1)) ++ [0]).length ≤ (fresh 256).length := by
-        simp only [List.length_append, List.length_take, List.length_singleton, fresh_length]; omega
-      simp only [show (255 : Nat) ≠ 0 by decide, if_false, wr_prefix _ _ hl]
+      have ht := List.length_take_le (min text.length (Gen.Str.fSpace - 1)) text
+      have hl : (text.take (min text.length (Gen.Str.fSpace - 1)) ++ [0]).length ≤ (fresh Gen.Str.fStack).length := by
+        rw [List.length_append, List.length_singleton, fresh_length]; omega
+      rw [if_neg hsp0, wr_prefix _ _ hl]
       exact ⟨_, rfl⟩
     obtain ⟨ss, hss⟩ := hss
     obtain ⟨r3, B, hr3, hl3, hc3, hB, hbuf3⟩ := resize_nokeep empty_models.1 text.length
     have hlt : text.length < r3.cap := by
       rw [← hc3, hbuf3]
       simp only [List.length_append, List.length_take, List.length_cons]; omega
-    obtain ⟨r', hr', hM⟩ := fmtLoop_fits text hn 14 hc3 hlt
-    exact ⟨r', by simp only [hss, Option.bind_some, if_pos h, hr3, hr'], hM⟩
-  · have hlen : text.length < 255 := by omega
-    have hss : Rep.vsnprintf (fresh 256) 255 text = some (text ++ [0] ++ (fresh 256).drop (text ++ [0]).length) := by
+    obtain ⟨r', hr', hM⟩ := fmtLoop_fits text hn (Gen.Str.fTries - 2) hc3 hlt
+    refine ⟨r', ?_, hM⟩
+    rw [hss]; simp only [Option.bind_some]
+    rw [if_pos h, hr3]; simp only [Option.bind_some]
+    exact hr'
+  · have hlen : text.length < Gen.Str.fSpace := by omega
+    have hss : Rep.vsnprintf (fresh Gen.Str.fStack) Gen.Str.fSpace text =
+        some (text ++ [0] ++ (fresh Gen.Str.fStack).drop (text ++ [0]).length) := by
       unfold Rep.vsnprintf
-      have hmin : min text.length (255 - 1) = text.length := by omega
-      have hl : (text ++ [0]).length ≤ (fresh 256).length := by
-        simp only [List.length_append, List.length_singleton, fresh_length]; omega
-      simp only [show (255 : Nat) ≠ 0 by decide, if_false, hmin, List.take_of_length_le (Nat.le_refl _), wr_prefix _ _ hl]
-    have hrd : rd (text ++ [0] ++ (fresh 256).drop (text ++ [0]).length) 0 text.length = some text := by
-      have := rd_mid' [] text ([0] ++ (fresh 256).drop (text ++ [0]).length) 0 text.length rfl rfl
+      have hmin : min text.length (Gen.Str.fSpace - 1) = text.length := by omega
+      have hl : (text ++ [0]).length ≤ (fresh Gen.Str.fStack).length := by
+        rw [List.length_append, List.length_singleton, fresh_length]; omega
+      rw [if_neg hsp0, hmin, List.take_of_length_le (Nat.le_refl _), wr_prefix _ _ hl]
+    have hrd : rd (text ++ [0] ++ (fresh Gen.Str.fStack).drop (text ++ [0]).length) 0 text.length = some text := by
+      have := rd_mid' [] text ([0] ++ (fresh Gen.Str.fStack).drop (text ++ [0]).length) 0 text.length rfl rfl
       simpa using this
     obtain ⟨s1, hs1, hM⟩ := assign_ext empty_models hn
-    refine ⟨{ s1 with len := text.length }, by simp only [hss, Option.bind_some, if_neg h, hrd, hs1, Option.map_some], ?_⟩
-    have : ({ s1 with len := text.length } : Rep) = s1 := by
-      have := hM.2.1
-      cases s1; simp_all
-    rw [this]; exact hM
+    refine ⟨{ s1 with len := text.length }, ?_, ?_⟩
+    · rw [hss]; simp only [Option.bind_some]
+      rw [if_neg h, hrd]; simp only [Option.bind_some]
+      rw [hs1]; rfl
+    · have : ({ s1 with len := text.length } : Rep) = s1 := by
+        have := hM.2.1
+        cases s1; simp_all
+      rw [this]; exact hM
 
 /-! ### the mutation interpreter -/
 
